@@ -1,0 +1,53 @@
+//go:build verif
+
+// Package verifhook re-exports internal APIs for the external verification harness.
+// Every file of this package is guarded by the build tag "verif": without the tag the
+// package does not exist and nothing in the library refers to it.
+package verifhook
+
+import (
+	"github.com/emmansun/gmsm/internal/bigmod"
+	"github.com/emmansun/gmsm/internal/sm2ec"
+	"github.com/emmansun/gmsm/internal/sm9/bn256"
+)
+
+// internal/sm2ec
+type SM2P256Point = sm2ec.SM2P256Point
+
+var (
+	NewSM2P256Point = sm2ec.NewSM2P256Point
+	P256OrdInverse  = sm2ec.P256OrdInverse
+	P256OrdMul      = sm2ec.P256OrdMul
+)
+
+// internal/bigmod
+type (
+	Nat     = bigmod.Nat
+	Modulus = bigmod.Modulus
+)
+
+var (
+	NewNat              = bigmod.NewNat
+	NewModulusFromBytes = bigmod.NewModulus
+)
+
+// internal/sm9/bn256
+type (
+	G1           = bn256.G1
+	G2           = bn256.G2
+	GT           = bn256.GT
+	GTFieldTable = bn256.GTFieldTable
+)
+
+var (
+	Gen1                 = bn256.Gen1
+	Gen2                 = bn256.Gen2
+	Pair                 = bn256.Pair
+	Miller               = bn256.Miller
+	BNOrder              = bn256.Order
+	BNOrderBytes         = bn256.OrderBytes
+	NormalizeScalar      = bn256.NormalizeScalar
+	GenerateGTFieldTable = bn256.GenerateGTFieldTable
+	ScalarBaseMultGT     = bn256.ScalarBaseMultGT
+	ScalarMultGT         = bn256.ScalarMultGT
+)
